@@ -230,9 +230,30 @@ impl ReassignmentPath {
     }
 }
 
+impl Dependencies for ReassignmentPath {
+    fn dependencies(&self) -> Vec<super::Dependency> {
+        match self {
+            Self::Ident(ident) => ident.net_dependencies(),
+            Self::ReferenceToSelf(_) => vec![],
+            Self::Index { lhs, index } => {
+                let mut dependencies = lhs.net_dependencies();
+                dependencies.append(&mut index.net_dependencies());
+                dependencies
+            }
+            Self::DotLookup { lhs, dot_chain, .. } => {
+                let mut dependencies = lhs.net_dependencies();
+                dependencies.append(&mut dot_chain.net_dependencies());
+                dependencies
+            }
+        }
+    }
+}
+
 impl Dependencies for Reassignment {
     fn dependencies(&self) -> Vec<super::Dependency> {
-        self.value.net_dependencies()
+        let mut dependencies = self.value.net_dependencies();
+        dependencies.append(&mut self.path.net_dependencies());
+        dependencies
     }
 }
 
